@@ -128,22 +128,33 @@ Inductive dwres :=
     (* async: a regular file was created, its content is requested through AsyncDataCb;
        newdir: a directory was created, dirModTimes[path] := mtime *)
 
-(* the creation switch of HandleChange at [np]; (fs, ok, isRegularFile) *)
-Definition dw_create (c : ctx) (f : fs) (np : bytes) (st : stat) : fs * bool * bool :=
+(* how HandleChange created the entry *)
+Inductive made := MRegular | MHardlink | MOther.
+
+(* the creation switch of HandleChange at [np]; (fs, ok, what was made) *)
+Definition dw_create (c : ctx) (f : fs) (np : bytes) (st : stat) : fs * bool * made :=
   let m := st_mode st in
   if mode_is_dir m then
-    let (f1, r) := sys_mkdir c f np (unix_perm m) in (f1, negb (is_err r), false)
+    let (f1, r) := sys_mkdir c f np (unix_perm m) in (f1, negb (is_err r), MOther)
   else if has_bits m ModeDevice || has_bits m ModeNamedPipe then
     let typ := if has_bits m ModeCharDevice then S_IFCHR
                else if has_bits m ModeNamedPipe then S_IFIFO else S_IFBLK in
     let (f1, r) := sys_mknod c f np typ (N.land m perm_mask) (mkdev (st_devmajor st) (st_devminor st)) in
-    (f1, negb (is_err r), false)
+    (f1, negb (is_err r), MOther)
   else if mode_is_symlink m then
-    let (f1, r) := sys_symlink c f (st_linkname st) np in (f1, negb (is_err r), false)
+    let (f1, r) := sys_symlink c f (st_linkname st) np in (f1, negb (is_err r), MOther)
   else if negb (is_nil (st_linkname st)) then
-    let (f1, r) := sys_link c f (st_linkname st) np in (f1, negb (is_err r), false)
+    let (f1, r) := sys_link c f (st_linkname st) np in (f1, negb (is_err r), MHardlink)
   else
-    let (f1, r) := sys_open_wronly c f np true (unix_perm m) in (f1, negb (is_err r), true).
+    let (f1, r) := sys_open_wronly c f np true (unix_perm m) in (f1, negb (is_err r), MRegular).
+
+Definition made_regular (k : made) : bool := match k with MRegular => true | _ => false end.
+
+(* rewriteMetadata after the creation switch: a hard link shares the inode — and with it the
+   metadata — of the file it names; that file got its metadata from its own change and may
+   have other names (also outside the destination), so it is left alone *)
+Definition dw_meta (c : ctx) (f : fs) (np : bytes) (st : stat) (k : made) : fs * bool :=
+  match k with MHardlink => (f, true) | _ => rewrite_meta c f np st end.
 
 Definition stat_ino (r : result) : option N := match r with RStat i _ => Some i | _ => None end.
 
@@ -163,8 +174,9 @@ Definition dw_handle (c : ctx) (f : fs) (tmp : bytes) (kind : N) (p : bytes) (st
         let np := tmp_path p tmp in
         match dw_create c f np st with
         | (f1, false, _) => (f1, DwErr)
-        | (f1, true, reg) =>
-          let (f2, ok) := rewrite_meta c f1 np st in
+        | (f1, true, mk) =>
+          let reg := made_regular mk in
+          let (f2, ok) := dw_meta c f1 np st mk in
           if negb ok then (f2, DwErr) else
           let (f3, r3) := if negb (Bool.eqb old_dir new_dir) then sys_remove_all c f2 p else (f2, ROk) in
           if is_err r3 then (f3, DwErr) else
@@ -178,8 +190,9 @@ Definition dw_handle (c : ctx) (f : fs) (tmp : bytes) (kind : N) (p : bytes) (st
       else
         match dw_create c f p st with
         | (f1, false, _) => (f1, DwErr)
-        | (f1, true, reg) =>
-          let (f2, ok) := rewrite_meta c f1 p st in
+        | (f1, true, mk) =>
+          let reg := made_regular mk in
+          let (f2, ok) := dw_meta c f1 p st mk in
           if negb ok then (f2, DwErr) else (f2, DwOk reg (mode_is_dir (st_mode st) && negb reg))
         end
     | _ => (f, DwErr)
